@@ -442,7 +442,36 @@ def _tidy_names(fn):
     '__hK_name' gets its own name back when nothing else in the function is called 'name' -- the body then reads as it did before the
     helper was extracted."""
     import re
-    fn = copy.deepcopy(fn)
+    fn = copy.deepcopy(split_unpacking(fn))
+    # 0. a helper local whose only use is being copied into a field (self.f = __hK_x) *is* that field
+    loads = {}
+    for n in ast.walk(fn):
+        if isinstance(n, ast.Name) and n.id.startswith('__h') and isinstance(n.ctx, ast.Load):
+            loads.setdefault(n.id, []).append(n)
+    fwd, drop0 = {}, set()
+    for st in ast.walk(fn):
+        if isinstance(st, ast.Assign) and len(st.targets) == 1 and isinstance(st.targets[0], ast.Attribute) and isinstance(st.value, ast.Name) \
+                and st.value.id in loads and len(loads[st.value.id]) == 1 and dotted(st.targets[0]) and dotted(st.targets[0]).startswith('self.'):
+            fwd[st.value.id] = st.targets[0]
+            drop0.add(id(st))
+    if fwd:
+        class F(ast.NodeTransformer):
+            def visit_Assign(self, n):
+                self.generic_visit(n)
+                if id(n) in drop0:
+                    return None
+                if len(n.targets) == 1 and isinstance(n.targets[0], ast.Name) and n.targets[0].id in fwd:
+                    t = copy.deepcopy(fwd[n.targets[0].id])
+                    t.ctx = ast.Store()
+                    return ast.copy_location(ast.Assign(targets=[t], value=n.value), n)
+                return n
+        fn = F().visit(fn)
+        for b in ast.walk(fn):
+            for f_ in ('body', 'orelse', 'finalbody'):
+                v_ = getattr(b, f_, None)
+                if isinstance(v_, list) and not v_ and f_ == 'body' and not isinstance(b, ast.Module):
+                    setattr(b, f_, [ast.Pass()])
+        ast.fix_missing_locations(fn)
     # 1. result variables
     uses = {}
     for n in ast.walk(fn):
@@ -528,6 +557,14 @@ def split_unpacking(fn):
             if isinstance(st, ast.Try):
                 for h in st.handlers:
                     h.body = block(h.body)
+            if isinstance(st, ast.Assign) and len(st.targets) == 1 and isinstance(st.targets[0], (ast.Tuple, ast.List)) \
+                    and all(isinstance(t, ast.Attribute) for t in st.targets[0].elts) and isinstance(st.value, (ast.Tuple, ast.List)) \
+                    and len(st.value.elts) == len(st.targets[0].elts) \
+                    and not ({norm(t) for t in st.targets[0].elts} & {norm(x) for v_ in st.value.elts for x in ast.walk(v_) if isinstance(x, ast.Attribute)}):
+                # self.a, self.b = x, y (no field among the operands)
+                for t, e in zip(st.targets[0].elts, st.value.elts):
+                    out.append(ast.copy_location(ast.Assign(targets=[copy.deepcopy(t)], value=e), st))
+                continue
             if isinstance(st, ast.Assign) and len(st.targets) == 1 and isinstance(st.targets[0], (ast.Tuple, ast.List)) \
                     and all(isinstance(t, ast.Name) for t in st.targets[0].elts):
                 tg = st.targets[0].elts
